@@ -7,6 +7,8 @@ The statement covers one-node tours too (`as = [a]`: reward `-D a a`); the real 
 /repo commit f2d5960 (before it, the gather squeezed a one-step action dimension and the roll ran
 over the batch; the harness keeps a regression probe for n = 1 inside batches).
 -/
+import Rl4co.Proofs.TspfamTsp
+import Rl4co.Proofs.TspfamTour
 import Rl4co.Env.Tsp
 import Rl4co.Proofs.TspfamParams
 import Rl4co.Spec.Tsp
@@ -34,5 +36,53 @@ example : reward ⟨3, fun a b => if a = b then 0 else (a + b : Int)⟩ [2, 0, 1
 
 /-- a one-node tour has length `D 0 0` (= 0 for a distance) -/
 example : reward ⟨1, fun _ _ => 0⟩ [0] = 0 := by decide
+
+end Rl4co.Tsp
+
+/-! ### Spec-level sanity: the objective has the symmetries of the problem -/
+namespace Rl4co.Spec.Tsp
+open Rl4co.Tspfam
+
+/-- a feasible tour exists for every size: visit the nodes in index order -/
+theorem feasible_range (n : Nat) : Feasible n (List.range n) :=
+  (feasible_iff_perm n _).mpr (List.Perm.refl _)
+
+/-- feasibility does not depend on where the closed tour is started … -/
+theorem feasible_roll1 {n : Nat} {as : List Nat} (h : Feasible n as) : Feasible n (roll1 as) := by
+  rw [feasible_iff_perm] at h ⊢
+  refine List.Perm.trans ?_ h
+  cases as with
+  | nil => exact List.Perm.refl _
+  | cons x r =>
+    have := List.perm_middle (a := x) (l₁ := r) (l₂ := [])
+    simp only [List.append_nil] at this
+    exact this
+
+/-- … nor on its direction -/
+theorem feasible_reverse {n : Nat} {as : List Nat} (h : Feasible n as) : Feasible n as.reverse := by
+  rw [feasible_iff_perm] at h ⊢
+  exact (List.reverse_perm as).trans h
+
+/-- the objective is invariant under rotation of the closed tour (any cost matrix, also asymmetric) -/
+theorem objective_roll1 (D : Nat → Nat → Int) (as : List Nat) : objective D (roll1 as) = objective D as :=
+  closedLen_roll1 D as
+
+/-- for symmetric distances the objective is invariant under reversal of the tour -/
+theorem objective_reverse (D : Nat → Nat → Int) (hs : ∀ a b, D a b = D b a) (as : List Nat) :
+    objective D as.reverse = objective D as :=
+  closedLen_reverse D hs as
+
+end Rl4co.Spec.Tsp
+
+namespace Rl4co.Tsp
+open Rl4co.Tspfam
+
+theorem reward_roll1 (i : Inst) (hs : ∀ a b, i.D a b = i.D b a) (as : List Nat) :
+    reward i (roll1 as) = reward i as := by
+  rw [reward_eq_objective i hs, reward_eq_objective i hs, Spec.Tsp.objective_roll1]
+
+theorem reward_reverse (i : Inst) (hs : ∀ a b, i.D a b = i.D b a) (as : List Nat) :
+    reward i as.reverse = reward i as := by
+  rw [reward_eq_objective i hs, reward_eq_objective i hs, Spec.Tsp.objective_reverse i.D hs]
 
 end Rl4co.Tsp
